@@ -517,14 +517,26 @@ Proof.
       replace (rate + S k' - rate)%nat with (S k') by lia. reflexivity.
 Qed.
 
+Lemma absorb_length bs : forall a, length a = state_len -> length (absorb f a bs) = state_len.
+Proof.
+  induction bs as [|b bs IHb]; intros a Ha; [exact Ha|].
+  cbn [absorb fold_left]. apply IHb. unfold absorb_block. apply f_len. rewrite xor_into_length. exact Ha.
+Qed.
+
+Lemma absorbed_length msg : length (absorbed f msg) = state_len.
+Proof. apply absorb_length, repeat_length. Qed.
+
+(* the digest has 32 bytes *)
+Lemma sponge256_length msg : length (sponge256 f msg) = output_len.
+Proof.
+  pose proof output_le_rate. pose proof rate_le_state.
+  unfold sponge256. rewrite firstn_length, absorbed_length. lia.
+Qed.
+
 Lemma squeeze_stream msg k d :
   snd (squeeze_bytes k (mkstate (absorbed f msg) 0 d)) = sponge_stream f msg k.
 Proof.
-  unfold sponge_stream. apply squeeze_bytes_stream; [apply le_S_div_rate|].
-  assert (G : forall bs a, length a = state_len -> length (absorb f a bs) = state_len).
-  { induction bs as [|b bs IHb]; intros a Ha; [exact Ha|].
-    cbn [absorb fold_left]. apply IHb. unfold absorb_block. apply f_len. rewrite xor_into_length. exact Ha. }
-  apply G. apply repeat_length.
+  unfold sponge_stream. apply squeeze_bytes_stream; [apply le_S_div_rate|]. apply absorbed_length.
 Qed.
 
 (* ---- Read / Sum in closed form ---- *)
@@ -743,3 +755,7 @@ Lemma keccak_f_length a : length (keccak_f a) = state_len.
 Proof.
   unfold keccak_f, bytes_of_st. destruct (keccak_f_lanes (st_of_bytes a)). reflexivity.
 Qed.
+
+(* for users of the reference function: the digest is 32 bytes long *)
+Lemma keccak256_length msg : length (keccak256 msg) = 32%nat.
+Proof. exact (sponge256_length keccak_f (fun a _ => keccak_f_length a) msg). Qed.
